@@ -418,6 +418,14 @@ fn junk_menu(store: &RawStore) -> Vec<(String, Vec<u8>, &'static str)> {
             v.push((format!("1-{}.delta", sha_hex(&bytes)), bytes, what));
         }
     }
+    // valid items under their own name in another letter case (names are compared as they are spelled)
+    for (k, b) in store.iter() {
+        let up = k.split('.').next().unwrap_or("").to_uppercase();
+        let ext = if k.ends_with(".delta") { ".delta" } else { ".pack" };
+        if up != k.split('.').next().unwrap_or("") {
+            v.push((format!("{}{}", up, ext), b.clone(), "valid-item-under-its-name-in-upper-case"));
+        }
+    }
     if let Some((_, b)) = &some_pack {
         v.push((format!("{}.pack", "a".repeat(64)), b.clone(), "valid-pack-under-wrong-name"));
         let bytes = b"[{\"a\":1},{\"b\":".to_vec();
